@@ -136,6 +136,7 @@ func init() {
 	})
 	reg(rt+"Symbolic", func(fr *frame, args []Value) Value { return fr.e.tt.True })
 	reg(rt+"Thorough", func(fr *frame, args []Value) Value { return fr.e.tt.Bool(fr.e.cfg.Thorough) })
+	reg(rt+"AllowDeadlock", func(fr *frame, args []Value) Value { fr.e.allowDeadlock = true; return nil })
 	reg(rt+"AllowPanic", func(fr *frame, args []Value) Value { fr.e.allowPanic = true; return nil })
 
 	// ---- sync.Mutex (field 0 = state) ----
